@@ -319,6 +319,23 @@ def exec_order_ok(case):
     return True, ''
 
 
+def conc_part(ctx, tests, what):
+    """the concurrent workloads whose names start with one of `tests`, run under -race, as part of a sequentially decided
+    property: `what` says which clause of the property they exercise"""
+    lines, races, stderr = vcheck.conc_run(ctx, 6 if ctx.tier == 'quick' else 40)
+    st = collections.Counter()
+    for l in lines or []:
+        tk = l.split()
+        if not any(tk[1].startswith(t) for t in tests):
+            continue
+        st[tk[1] + '-' + tk[2]] += 1
+        if tk[2] != 'ok':
+            ctx.violations.append(('%s: concurrent workload %s: %s' % (what, tk[1], ' '.join(tk[3:])),
+                                   write_replay(ctx, 'conc_%s.txt' % tk[1], '\n'.join(lines) + '\n' + stderr), True))
+    ctx.cov['concurrent_workloads'] = dict(st)
+    ctx.assumptions.append('sync.Once and the Go memory model are modelled (C10), not verified; the workloads under the race detector support that model')
+
+
 @prop('C05')
 def c05(ctx):
     ob, dis, details = proof_obligations(ctx, 'C05')
@@ -341,6 +358,7 @@ def c05(ctx):
                 ok, d = exec_order_ok(c)
                 if not ok:
                     ctx.violations.append(('%s (case %s)' % (d, c.key), write_replay(ctx, 'case_%s.txt' % c.key, c.text()), True))
+    conc_part(ctx, ['static'], 'literals and static injectors take effect before any per-invocation provider, also for invocations racing on the first call')
     if len(ctx.violations) > 5:
         ctx.notes.append('%d violations; first 5 reported' % len(ctx.violations)); ctx.violations.sort(key=lambda v: not v[2]); ctx.violations = ctx.violations[:5]
     ctx.assumptions += ['provider bodies are the harness\'s scripted bodies (any Beh in the theorem)']
@@ -633,6 +651,9 @@ def c06(ctx):
             'on every generated chain; call counts of static injectors over init + several invocations are read from the real traces; '
             'non-trivial = chain with a Cacheable-family provider; distinct = distinct provider lists')
     ctx.assumptions.append('with an init function the static chain runs when init is called (documented contract)')
+    conc_part(ctx, ['static', 'singleton'], 'static results are visible to every invocation, also to those racing on the first call')
+    if len(ctx.violations) > 5:
+        ctx.violations.sort(key=lambda v: not v[2]); ctx.violations = ctx.violations[:5]
     return finish(ctx, 'proof', ob, dis, details, rule)
 
 
